@@ -1,6 +1,9 @@
 package main
 
 import (
+	"time"
+	"unicode/utf8"
+	"io"
 	"encoding/json"
 	"flag"
 	"fmt"
@@ -149,6 +152,8 @@ func checkC20(c *Ctx) {
 		c.Add("traces_validated_against_impl", 1)
 	}
 	c.Set("request_histories", int64(nh))
+	// overlapping requests: a PUT waits for its body while other changes land
+	lvlConcChecks(c)
 	// text forms: all 256 level values through every text surface
 	for _, f := range levelTextChecks(rng, c.Pick(200, 5000)) {
 		c.Violation(f.Key, f.What, nil)
@@ -175,13 +180,15 @@ func replayLevelHTTP(steps []lvlStep, rng *rand.Rand) (finds []Finding) {
 		if hasNamed {
 			named = pick(st.After)
 		}
+		otherLvl := allLevels[rng.Intn(7)] // the level spelled by texts of a request that the model refuses
 		mkText := func(t lvlText) string {
 			if hasNamed {
 				return textOf(t, named, rng)
 			}
-			return textOf(t, allLevels[rng.Intn(7)], rng)
+			return textOf(t, otherLvl, rng)
 		}
 		body := ""
+		readErr := false // the body reader fails (connection lost) after delivering body
 		switch r.Body.K {
 		case "form":
 			body = "level=" + url.QueryEscape(mkText(r.Body.T))
@@ -198,6 +205,13 @@ func replayLevelHTTP(steps []lvlStep, rng *rand.Rand) (finds []Finding) {
 			if rng.Intn(3) == 0 {
 				body = " \n" + body
 			}
+		case "jsonThenError":
+			b, _ := json.Marshal(map[string]string{"level": mkText(r.Body.T)})
+			body = string(b)
+			readErr = true
+		case "jsonCutShort":
+			body = []string{`{"level":"deb`, `{"level":`, `{`}[rng.Intn(3)]
+			readErr = true
 		case "jsonNull":
 			body = `{"level":null}`
 		case "jsonMissing":
@@ -218,7 +232,12 @@ func replayLevelHTTP(steps []lvlStep, rng *rand.Rand) (finds []Finding) {
 			}
 			target += "?level=" + url.QueryEscape(qt)
 		}
-		req := httptest.NewRequest(r.M, target, strings.NewReader(body))
+		var bodyReader io.Reader = strings.NewReader(body)
+		if readErr {
+			bodyReader = io.MultiReader(strings.NewReader(body), lvlFailReader{})
+		}
+		req := httptest.NewRequest(r.M, target, bodyReader)
+		mayRefuse := r.Ct != "form" && r.Body.K == "jsonThenError"
 		switch r.Ct {
 		case "form":
 			req.Header.Set("Content-Type", "application/x-www-form-urlencoded")
@@ -242,13 +261,18 @@ func replayLevelHTTP(steps []lvlStep, rng *rand.Rand) (finds []Finding) {
 		after := al.Level()
 		desc := fmt.Sprintf("request #%d %s %s content-type=%q body=%q (level before: %v)", i, r.M, target, req.Header.Get("Content-Type"), body, before)
 		// the property's predicates
-		if hasNamed {
+		if hasNamed && mayRefuse && after == before && rec.Code >= 400 && rec.Code < 500 {
+			// a complete document followed by a read error: refusing the request is allowed too
+		} else if hasNamed {
 			if after != named {
 				add("C20/put-valid-not-applied", "%s names level %v; level afterwards is %v", desc, named, after)
 			}
 			if rec.Code != 200 {
 				add("C20/put-valid-status", "%s names level %v; status %d", desc, named, rec.Code)
 			}
+		} else if k := r.Body.T.Kind; mayRefuse && r.M == "PUT" && rec.Code == 200 &&
+			(((k == "exact" || k == "capital" || k == "mixed") && after == otherLvl) || (k == "empty" && after == zapcore.InfoLevel)) {
+			// the model chose "refused" for this request but its document names a level: honouring it is allowed
 		} else {
 			if after != before {
 				add("C20/level-changed-without-valid-put", "%s changed the level to %v", desc, after)
@@ -312,45 +336,7 @@ func levelTextChecks(rng *rand.Rand, nrand int) (finds []Finding) {
 			forms = append(forms, mixCase(l.String(), rng))
 		}
 		for _, txt := range forms {
-			for _, start := range []zapcore.Level{zapcore.ErrorLevel, zapcore.DebugLevel} {
-				// Level.UnmarshalText
-				got := start
-				err := got.UnmarshalText([]byte(txt))
-				checkParse(add, "Level.UnmarshalText", txt, valid, l, start, got, err)
-				// Level.Set (flag.Value)
-				got = start
-				err = got.Set(txt)
-				checkParse(add, "Level.Set", txt, valid, l, start, got, err)
-				// flag parsing
-				fs := flag.NewFlagSet("t", flag.ContinueOnError)
-				fs.SetOutput(new(strings.Builder))
-				got = start
-				fs.Var(&got, "level", "")
-				err = fs.Parse([]string{"-level", txt})
-				checkParse(add, "flag", txt, valid, l, start, got, err)
-				// JSON
-				got = start
-				jb, _ := json.Marshal(txt)
-				err = json.Unmarshal(jb, &got)
-				checkParse(add, "JSON", txt, valid, l, start, got, err)
-				// YAML
-				got = start
-				yb, _ := yaml.Marshal(txt)
-				err = yaml.Unmarshal(yb, &got)
-				checkParse(add, "YAML", txt, valid, l, start, got, err)
-				// AtomicLevel
-				al := zap.NewAtomicLevelAt(start)
-				err = al.UnmarshalText([]byte(txt))
-				checkParse(add, "AtomicLevel.UnmarshalText", txt, valid, l, start, al.Level(), err)
-				// ParseLevel / ParseAtomicLevel
-				pl, err := zapcore.ParseLevel(txt)
-				if valid && (err != nil || pl != l) {
-					add("C20/roundtrip", "ParseLevel(%q) = %v, %v; want %v", txt, pl, err, l)
-				}
-				if !valid && err == nil {
-					add("C20/invalid-text-accepted", "ParseLevel(%q) accepted as %v", txt, pl)
-				}
-			}
+			lvlAllSurfaces(add, txt, valid, l)
 		}
 		if valid {
 			jb, err := json.Marshal(l)
@@ -421,6 +407,16 @@ func levelTextChecks(rng *rand.Rand, nrand int) (finds []Finding) {
 		got := zapcore.Level(3)
 		err := got.UnmarshalText([]byte(txt))
 		checkParse(add, "Level.UnmarshalText(random)", txt, ok, want, 3, got, err)
+		if utf8.ValidString(txt) && !strings.ContainsAny(txt, "\x00\n") && !strings.HasPrefix(txt, "-") {
+			lvlAllSurfaces(add, txt, ok, want)
+		}
+	}
+	// plausible but wrong names, short enough for any table of level names
+	for _, txt := range []string{"off", "trace", "none", "all", "warnn", "inf", "fata", "INFOO", "verbose", "crit", "notice", "err", "dbg", "1", "-1", "0"} {
+		if strings.HasPrefix(txt, "-") {
+			continue
+		}
+		lvlAllSurfaces(add, txt, false, 0)
 	}
 	return finds
 }
@@ -451,3 +447,206 @@ func checkParse(add func(string, string, ...interface{}), surface, txt string, v
 }
 
 var _ = http.MethodGet
+
+// lvlFailReader: the connection breaks.
+type lvlFailReader struct{}
+
+func (lvlFailReader) Read([]byte) (int, error) { return 0, fmt.Errorf("read tcp 10.0.0.1:443: connection reset by peer") }
+
+
+// lvlAllSurfaces sends one text through every parsing surface, twice per surface with different targets: the
+// verdict on a text may not depend on what was parsed before.
+func lvlAllSurfaces(add func(string, string, ...interface{}), txt string, valid bool, l zapcore.Level) {
+	for _, start := range []zapcore.Level{zapcore.ErrorLevel, zapcore.DebugLevel} {
+				// Level.UnmarshalText
+				got := start
+				err := got.UnmarshalText([]byte(txt))
+				checkParse(add, "Level.UnmarshalText", txt, valid, l, start, got, err)
+				// Level.Set (flag.Value)
+				got = start
+				err = got.Set(txt)
+				checkParse(add, "Level.Set", txt, valid, l, start, got, err)
+				// flag parsing
+				fs := flag.NewFlagSet("t", flag.ContinueOnError)
+				fs.SetOutput(new(strings.Builder))
+				got = start
+				fs.Var(&got, "level", "")
+				err = fs.Parse([]string{"-level", txt})
+				checkParse(add, "flag", txt, valid, l, start, got, err)
+				// JSON
+				got = start
+				jb, _ := json.Marshal(txt)
+				err = json.Unmarshal(jb, &got)
+				checkParse(add, "JSON", txt, valid, l, start, got, err)
+				// YAML
+				got = start
+				yb, _ := yaml.Marshal(txt)
+				err = yaml.Unmarshal(yb, &got)
+				checkParse(add, "YAML", txt, valid, l, start, got, err)
+				// AtomicLevel
+				al := zap.NewAtomicLevelAt(start)
+				err = al.UnmarshalText([]byte(txt))
+				checkParse(add, "AtomicLevel.UnmarshalText", txt, valid, l, start, al.Level(), err)
+				// ParseLevel / ParseAtomicLevel
+				pl, err := zapcore.ParseLevel(txt)
+				if valid && (err != nil || pl != l) {
+					add("C20/roundtrip", "ParseLevel(%q) = %v, %v; want %v", txt, pl, err, l)
+				}
+				if !valid && err == nil {
+					add("C20/invalid-text-accepted", "ParseLevel(%q) accepted as %v", txt, pl)
+				}
+				pal, err := zap.ParseAtomicLevel(txt)
+				if valid && (err != nil || pal.Level() != l) {
+					add("C20/roundtrip", "ParseAtomicLevel(%q) = %v, %v; want %v", txt, pal, err, l)
+				}
+				if !valid && err == nil {
+					add("C20/invalid-text-accepted", "ParseAtomicLevel(%q) accepted as %v", txt, pal.Level())
+				}
+	}
+}
+// ---- overlapping requests (LevelHTTPConc.tla) ----
+
+type lvlConcAct struct {
+	A     string `json:"a"`
+	R     int    `json:"r"`
+	Lvl   string `json:"lvl"`
+	After string `json:"after"`
+}
+
+// lvlGateBody blocks in its first Read until released, then delivers the body.
+type lvlGateBody struct {
+	g    *Gate
+	data *strings.Reader
+	once bool
+}
+
+func (b *lvlGateBody) Read(p []byte) (int, error) {
+	if !b.once {
+		b.once = true
+		b.g.At("body", 0, 0)
+	}
+	return b.data.Read(p)
+}
+
+var lvlConcrete = map[string]zapcore.Level{"debug": zapcore.DebugLevel, "info": zapcore.InfoLevel, "error": zapcore.ErrorLevel}
+
+func replayLevelHTTPConc(h []lvlConcAct, start string, variant int) (finds []Finding, diverged string) {
+	add := func(key, f string, a ...interface{}) { finds = append(finds, Finding{Key: key, What: fmt.Sprintf(f, a...)}) }
+	g := NewGate()
+	defer g.Drain()
+	al := zap.NewAtomicLevelAt(lvlConcrete[start])
+	recs := map[int]*httptest.ResponseRecorder{}
+	sched := []string{}
+	const to = 3 * time.Second
+	for i, a := range h {
+		proc := fmt.Sprint("r", a.R)
+		sched = append(sched, fmt.Sprintf("%s(%d,%s)", a.A, a.R, a.Lvl))
+		before := al.Level()
+		switch a.A {
+		case "Start":
+			body, ct := "", "application/json"
+			if a.Lvl != "none" {
+				body = `{"level":"` + a.Lvl + `"}`
+				if variant%2 == 1 {
+					body, ct = "level="+a.Lvl, "application/x-www-form-urlencoded"
+				}
+			} else {
+				bad := []string{`{"level":"verbose"}`, `{"level":`, `{}`, `level=loud`}
+				body = bad[(variant+i)%len(bad)]
+				if strings.HasPrefix(body, "level=") {
+					ct = "application/x-www-form-urlencoded"
+				}
+			}
+			req := httptest.NewRequest("PUT", "/level", &lvlGateBody{g: g, data: strings.NewReader(body)})
+			req.Header.Set("Content-Type", ct)
+			rec := httptest.NewRecorder()
+			recs[a.R] = rec
+			g.Go(proc, func() { al.ServeHTTP(rec, req) })
+			if s, _ := g.WaitParked(proc, to, "body"); s != "body" {
+				return finds, fmt.Sprintf("request %d did not block reading its body (%s)", a.R, s)
+			}
+			if al.Level() != before {
+				add("C20/level-changed-without-valid-put", "schedule %v: a PUT that has not yet received its body changed the level from %v to %v", sched, before, al.Level())
+			}
+		case "AppSet":
+			if variant%3 == 0 {
+				al.SetLevel(lvlConcrete[a.Lvl])
+			} else {
+				// a complete, valid PUT from another client
+				req := httptest.NewRequest("PUT", "/level", strings.NewReader(`{"level":"`+a.Lvl+`"}`))
+				rec := httptest.NewRecorder()
+				al.ServeHTTP(rec, req)
+				if rec.Code != 200 {
+					add("C20/put-valid-status", "schedule %v: a valid PUT answered %d while other requests were waiting for their bodies", sched, rec.Code)
+				}
+			}
+		case "Finish":
+			g.Release(proc)
+			if !g.WaitDone(proc, 1, to) {
+				return finds, fmt.Sprintf("request %d did not return after its body arrived", a.R)
+			}
+			rec := recs[a.R]
+			if a.Lvl == "none" {
+				if al.Level() != before {
+					add("C20/level-changed-without-valid-put", "schedule %v: request %d was rejected (status %d) but changed the level from %v to %v (it entered the handler while the level was still different)", sched, a.R, rec.Code, before, al.Level())
+				}
+				if rec.Code < 400 || rec.Code >= 500 {
+					add("C20/bad-request-not-4xx", "schedule %v: malformed request %d answered %d", sched, a.R, rec.Code)
+				}
+			} else {
+				if al.Level() != lvlConcrete[a.Lvl] {
+					add("C20/put-valid-not-applied", "schedule %v: request %d names %s; level afterwards is %v", sched, a.R, a.Lvl, al.Level())
+				}
+				if rec.Code != 200 {
+					add("C20/put-valid-status", "schedule %v: request %d names %s; status %d", sched, a.R, a.Lvl, rec.Code)
+				}
+			}
+		}
+		if len(finds) > 0 {
+			return
+		}
+	}
+	return
+}
+
+func lvlConcChecks(c *Ctx) {
+	c.MustTLC(TLCOpts{Module: "LevelHTTPConc", Cfg: "LevelHTTPConc.check"})
+	c.MustTLC(TLCOpts{Module: "LevelHTTPConc", Cfg: "LevelHTTPConc.check", Consts: map[string]string{"RejectRule": `"restore"`}, ExpectViolation: true})
+	n, ndiv := 0, 0
+	c.MustTLC(TLCOpts{Module: "LevelHTTPConc", Cfg: "LevelHTTPConc.check", Gen: true, Consts: map[string]string{"Emit": "TRUE", "MaxAppSets": fmt.Sprint(c.Pick(1, 2))}, OnBeh: func(raw json.RawMessage) {
+		if c.Saturated() {
+			return
+		}
+		var b struct {
+			H []lvlConcAct `json:"h"`
+		}
+		if err := json.Unmarshal(raw, &b); err != nil || len(b.H) == 0 {
+			c.Inconclusive("bad LevelHTTPConc behaviour: %v", err)
+			return
+		}
+		n++
+		if !c.Thorough() && n%3 != 0 {
+			return
+		}
+		// the starting level is whatever makes the first AppSet / rejected Finish observable: try all three
+		for si, start := range []string{"debug", "info", "error"} {
+			f, div := replayLevelHTTPConc(b.H, start, n+si)
+			if div != "" {
+				ndiv++
+				c.Note("LevelHTTPConc replay diverged: %s", div)
+				continue
+			}
+			for _, x := range f {
+				c.Violation(x.Key, x.What, map[string]interface{}{"mode": "overlapping-requests", "h": b.H, "start": start})
+			}
+			c.Add("traces_validated_against_impl", 1)
+		}
+		if n%401 == 0 {
+			c.Sample(map[string]interface{}{"mode": "overlapping-requests", "h": b.H})
+		}
+	}})
+	c.Set("overlapping_request_schedules", int64(n))
+	if ndiv*10 > n {
+		c.Inconclusive("too many overlapping-request replays diverged (%d of %d)", ndiv, n)
+	}
+}
